@@ -2,6 +2,8 @@
    form.  Only statements, each closed by `exact <lemma>`, with Print Assumptions. *)
 From Coq Require Import NArith List Lia.
 From Mtbl Require Import gen.Consts model.Bytes model.Codec spec.Leb128 proofs.CodecProofs.
+(* source ties: the statements of the C functions the model follows (gen/Ties.v is regenerated from /repo on every run) *)
+From Mtbl Require props.Ties_C16.
 Local Open Scope N_scope.
 
 (* T16a: 32-bit round trip, every value, any trailing bytes; same byte count *)
